@@ -52,6 +52,11 @@ def gen(rng, n, tier):
                     over["xlabel"] if over["xlabel"] != "none" else (meta["axis_name"] if meta["axis_name"] != "none" else "axis0"),
                     over["ylabel"] if over["ylabel"] != "none" else ""]
             ticks = rng.choice(["none", "none", "center", "edge"]) if not kind.startswith("plotly") or True else "none"
+            if not kind.startswith("plotly") and rng.random() < 0.12:
+                # time ticks on an axis whose limits are not the histogram's own range
+                unit = rng.choice([1, 2, 5])
+                lo_b, hi_b = float(bins[0][0]), float(bins[-1][1])
+                ticks = ["time", unit, fl(math.floor(lo_b) - rng.choice([0.5, 3, 7.25])), fl(math.ceil(hi_b) + rng.choice([0.5, 4, 9.75]))]
             coll = "none"
             if kind in ("bar", "scatter", "line", "step", "plotly_bar", "plotly_scatter", "plotly_line") and rng.random() < 0.2 and not errs:
                 coll = [rng.choice([0, 1, 2, 5, 17]) if ints else fl(rng.random() * 10) for _ in bins]
@@ -179,7 +184,10 @@ def _plot1(d, f):
         if d["show_values"] == "T": kw["show_values"] = True
         for k, v in d["over"]:
             if v != "none": kw[k] = v
-    if d["ticks"] != "none": kw["ticks"] = d["ticks"]
+    if isinstance(d["ticks"], list):
+        from physt.plotting.common import TimeTickHandler
+        kw["tick_handler"] = TimeTickHandler("%ds" % int(d["ticks"][1])); kw["xlim"] = (float(d["ticks"][2]), float(d["ticks"][3]))
+    elif d["ticks"] != "none": kw["ticks"] = d["ticks"]
     out = [["bins", [[float(a), float(b)] for a, b in h.bins.tolist()]], ["freq", f(h.frequencies)], ["err2", f(h.errors2)]]
     try:
         if plotly: fig = target.plot(kind[7:], backend="plotly", **kw)
@@ -260,7 +268,9 @@ def _plot2(d, f):
         vals = [float(x) for x in d["freq"]]
         if co == "log" and min(vals) > 0: kw["cmap_normalize"] = "log"
         elif co == "min": kw["cmap_min"] = "min"
-        elif isinstance(co, list): kw["cmap_min"] = float(co[1])
+        elif isinstance(co, list):      # a lower end inside the range of what is drawn (a scale whose ends coincide is refused, rightly)
+            shown = np.asarray(h.densities if d["density"] == "T" else h.frequencies, dtype=float).ravel()
+            if shown.max() > shown.min(): kw["cmap_min"] = float(shown.min() + 0.4 * (shown.max() - shown.min()))
     out = [["axes", [[[float(a), float(b)] for a, b in bb.bins.tolist()] for bb in h._binnings]], ["freq", f(h.frequencies)]]
     try:
         boxes = []
